@@ -107,6 +107,11 @@ def skip_ties(r):
 def run(chk):
     chk.coverage["trusted_base"] = [
         "Coq 8.16.1 kernel + vm_compute",
+        "translator/tr_similarity.py + translator/rsparse.py (the variants of RouteSimilarityFunction, is_similar, rank_similarity, "
+        "test_similarity and the terms / closing formula of cos_similarity compiled to coq/Gen/RouteSimilarity.v on every run; fails "
+        "closed; coq/Props/GenSimilarity.v proves the similarity section of Model/Ksp.v equal to them for every numeric record and "
+        "square root, so a misreading shows up in the sim stream); the sums over HashMap / HashSet iterators and the reading of the "
+        "comparison over the rationals (Ksp.cos_ge_Q) stay hand-written",
         "hand-written models coq/Model/Ksp.v (similarity, termination criteria, loop test, reorient, single-via, Yen) on "
         "top of coq/Model/Search.v + SearchRun.v, tied by this correspondence run",
         "std HashMap iteration order and priority_queue tie-breaking specified as 'pop removes an entry of minimal "
@@ -127,7 +132,17 @@ def run(chk):
     for name, res in vf.run_translators(which=["turn", "units", "cost"]).items():
         if not res.get("ok", False):
             vf.log("translator %s: %s (owned by another check; its previous output is used)" % (name, res.get("msg")))
-    chk.proofs(extra_targets=["Model/KspRun.vo", "Model/E2ERun.vo"])
+    # Gen/RouteSimilarity.v: the variants of RouteSimilarityFunction, is_similar, rank_similarity, test_similarity and the terms /
+    # closing formula of cos_similarity are regenerated from the Rust source; Props/GenSimilarity.v proves Model/Ksp.v's
+    # similarity section (with the literal comparison Ksp.cos_ge_num, whose binary64 instance runs in the sim stream) equal to them
+    sres = vf.run_translators(which=["similarity"]).get("similarity", {"ok": False, "msg": "translator module tr_similarity.py missing"})
+    chk.coverage.setdefault("translator", {})["similarity"] = {k: sres.get(k) for k in ("ok", "msg", "digest", "files", "changed")}
+    if not sres.get("ok"):
+        chk.violation("broken-correspondence", "translator", {"translator": "tr_similarity", "error": sres.get("msg")}, sres.get("msg"),
+                      "algorithm/search/util/route_similarity_function.rs has the shape the translator knows (fail closed)",
+                      detail="coq/Gen/RouteSimilarity.v could not be regenerated; the previous definitions (if any) are used below",
+                      found=False, key="translator-similarity")
+    chk.proofs(extra_targets=["Model/KspRun.vo", "Model/E2ERun.vo"], extra_props=["Props/GenSimilarity.v"])
     if chk.replay:
         import json
         rj = json.load(open(chk.replay))
